@@ -457,15 +457,18 @@ func (k Key) FsName() string {
 		headerKeys = append(headerKeys, hk)
 	}
 	sort.Strings(headerKeys)
+	// Fields are delimited (LF between fields, NUL before each header value: neither can
+	// occur inside a method, host, request-target or header value), so that text moved
+	// from one field to its neighbour always yields a different name.
 	for _, hk := range headerKeys {
-		hs += hk
+		hs += "\n" + hk
 		for _, v := range k.storedHeaders[hk] {
-			hs += v
+			hs += "\x00" + v
 		}
 	}
-	s := k.method + k.host + k.path + hs
+	s := k.method + "\n" + k.host + "\n" + k.path + hs
 	if k.opaqueOrigin {
-		s += "opaqueOrigin"
+		s += "\n\x00opaqueOrigin"
 	}
 	name := util.SHA1String([]byte(s))
 	return prefixWithItemName(name) + name
